@@ -84,21 +84,27 @@ pub fn sign<S: MlDsa>(seed: u64, nfull: usize, nfactor: usize, allctx: bool, out
             ("tr section random", Box::new(|b: &mut Vec<u8>, p: &mut Prng| { for x in b[64..128].iter_mut() { *x = p.below(256) as u8; } })),
             ("K section zero", Box::new(|b: &mut Vec<u8>, _p: &mut Prng| { for x in b[32..64].iter_mut() { *x = 0; } })),
             ("one low bit of a t0 field flipped", Box::new(move |b: &mut Vec<u8>, p: &mut Prng| { let f = p.below(256 * S::K as u64) as usize; let bit = t0_off * 8 + 13 * f; b[bit / 8] ^= 1 << (bit % 8); })),
+            // every coefficient of the first t0 polynomial at its upper end 2^12 (field value 0): hints and ||c t0|| far from honest
+            ("first t0 polynomial all 2^12", Box::new(move |b: &mut Vec<u8>, _p: &mut Prng| { for x in b[t0_off..t0_off + 416].iter_mut() { *x = 0; } })),
         ];
-        let take: Vec<usize> = if nfull > 6 { vec![0, 1, 2] } else { vec![(seed as usize) % 3] };
+        let take: Vec<usize> = if nfull > 6 { vec![0, 1, 2, 3] } else { vec![(seed as usize) % 3, 3] };
         for vi in take {
             let (name, f) = &variants[vi];
             let mut b = skb.clone();
             f(&mut b, &mut p);
-            let mp = msg_of(&mut p, 77 + vi as u64);
+            let m = msg_of(&mut p, 77 + vi as u64);
+            let ctx = ctx_of(&mut p, vi as u64 + seed);
+            let mode = MODES[(vi + seed as usize) % 4];
             let rnd = p.arr32();
+            let mut rng = ScriptRng::new(&rnd);
             vh::trace_start();
-            let r = guarded(|| S::sk_from(&b).map(|sk| S::internal_sign(&sk, &mp, rnd)));
+            let r = guarded(|| S::sk_from(&b).map(|sk| S::sign(&sk, &mut rng, &m, &ctx, mode)));
             let att = vh::trace_take().iter().filter(|e| e.0 == "sign_attempt").count();
             match r {
-                Ok(Ok(sig)) => out.ev(json!({"ev": "SignInternal", "what": format!("foreign private key: {}", name), "sk": jbytes(&b), "mp": jbytes(&mp), "rnd": jbytes(&rnd), "sig": jbytes(&sig), "attempts": att})),
+                Ok(Ok(res)) => out.ev(json!({"ev": "Sign", "what": format!("foreign private key: {}", name), "sk": jbytes(&b), "m": jbytes(&m), "ctx": jbytes(&ctx), "mode": mode, "rnd": jbytes(&rnd),
+                    "ok": res.is_ok(), "sig": jbytes(&res.unwrap_or_default()), "attempts": att, "rnglog": rng.log_json()})),
                 Ok(Err(e)) => out.ev(json!({"ev": "Panic", "call": "sk try_from_bytes", "loc": "refused an acceptable private key", "msg": e})),
-                Err((loc, msg)) => out.ev(json!({"ev": "Panic", "call": "internal_sign", "loc": loc, "msg": msg})),
+                Err((loc, msg)) => out.ev(json!({"ev": "Panic", "call": "sign", "loc": loc, "msg": msg})),
             }
         }
     }
